@@ -442,9 +442,9 @@ def case_circle(rng):
         if k < 0.25:
             o = [0.0, 0.0, rng.choice((0.0, 4.0, -4.0)) * (r0 / 3 if r0 else 1.0)]    # axis: 3-4-5 triples
         elif k < 0.45:
-            o = [r0, 0.0, rng.choice((0.0, 0.0, 1.0))]
+            o = [r0, 0.0, rng.choice((0.0, 0.0, 1.0, r0 * 2.0 ** -51, -r0 * 2.0 ** -49))]     # on the wire, z within / beyond 1e-15 r0
         elif k < 0.55:
-            o = [nudge(r0, rng.choice((-5, -1, 1, 5))), 0.0, 0.0]
+            o = [nudge(r0, rng.choice((-5, -1, 1, 5))), 0.0, rng.choice((0.0, r0 * 2.0 ** -52))]
         else:
             o = dyv(rng, -3, 3, 2)
             if o[0] == 0 and o[1] == 0:     # the axis formula needs an exact square root: only the triples above
